@@ -207,7 +207,14 @@ func GetRoles(P *Program) *Roles {
 		if len(found) > 1 {
 			// a helper extracted from the role function carries the trait too: the role is the candidate that calls the
 			// others (directly), when exactly one candidate is called by no other candidate
+			// … and the others are called by candidates only (a helper that also serves other functions is a role of its own
+			// that merely acquired a wrapper: the ambiguity stands and the normal forms resolve it by inlining the wrapper)
 			var outer []*ssa.Function
+			inFound := map[*ssa.Function]bool{}
+			for _, f := range found {
+				inFound[f] = true
+			}
+			private := true
 			for _, f := range found {
 				calledByOther := false
 				for _, g := range found {
@@ -217,9 +224,19 @@ func GetRoles(P *Program) *Roles {
 				}
 				if !calledByOther {
 					outer = append(outer, f)
+					continue
+				}
+				for _, site := range callsToFn2(P, f) {
+					caller := site.Parent()
+					for caller.Parent() != nil {
+						caller = caller.Parent()
+					}
+					if !inFound[caller] {
+						private = false
+					}
 				}
 			}
-			if len(outer) == 1 {
+			if len(outer) == 1 && private {
 				return outer[0]
 			}
 		}
